@@ -157,6 +157,8 @@ type vWire struct {
 	written     []string
 	failWriteAt int // index of the Write call that fails (-1: never)
 	closed      int
+	stamp       bool  // read the model clock at every Write
+	stamps      []int // those readings (ns)
 }
 
 func vNewWire(chunks ...string) *vWire { return &vWire{chunks: chunks, failWriteAt: -1} }
@@ -179,6 +181,10 @@ func (w *vWire) Read(p []byte) (int, error) {
 }
 
 func (w *vWire) Write(p []byte) (int, error) {
+	if w.stamp {
+		w.stamps = append(w.stamps, int(vNow().Sub(time.Time{})))
+		vMark("write")
+	}
 	if w.failWriteAt == len(w.written) {
 		w.failWriteAt = -2
 		return 0, errors.New("vWire: write failed")
@@ -224,4 +230,99 @@ func vHasVerb(s, verb string) bool {
 		return false
 	}
 	return len(s) == len(verb) || s[len(verb)] == ' '
+}
+
+// --- model clock ------------------------------------------------------------
+// The executor replaces time.Now / time.After / time.Since by a model clock
+// whose readings are solver variables (now#1, now#2, ...). For native replay
+// the runner compiles a temporary copy of the repository files in which those
+// calls are renamed to vNow / vAfter / vSince, so that the counterexample's
+// clock readings are served exactly.
+
+var (
+	vNowLog   []time.Time
+	vSleepLog []time.Duration
+	vEvLog    []string
+)
+
+func vNow() time.Time {
+	vLoad()
+	vMu.Lock()
+	defer vMu.Unlock()
+	k := len(vNowLog) + 1
+	t := time.Now()
+	if raw, ok := vVec.Inputs[fmt.Sprintf("now#%d", k)]; ok {
+		var ns int64
+		json.Unmarshal(raw, &ns)
+		t = time.Time{}.Add(time.Duration(ns))
+	}
+	vNowLog = append(vNowLog, t)
+	vEvLog = append(vEvLog, "now")
+	return t
+}
+
+func vSince(t time.Time) time.Duration { return vNow().Sub(t) }
+
+func vAfter(d time.Duration) <-chan time.Time {
+	vMu.Lock()
+	vSleepLog = append(vSleepLog, d)
+	vEvLog = append(vEvLog, "sleep")
+	vMu.Unlock()
+	c := make(chan time.Time, 1)
+	c <- vNow()
+	return c
+}
+
+// vNote records a harness event in the same log as clock readings and sleeps.
+func vMark(s string) {
+	vMu.Lock()
+	vEvLog = append(vEvLog, "mark:"+s)
+	vMu.Unlock()
+}
+
+// vEventCount / vEventInt / vEventPos read the event log ("now": clock readings in
+// nanoseconds since the zero time.Time, "sleep": durations of time.After calls).
+func vEventCount(kind string) int {
+	vMu.Lock()
+	defer vMu.Unlock()
+	switch kind {
+	case "now":
+		return len(vNowLog)
+	case "sleep":
+		return len(vSleepLog)
+	}
+	n := 0
+	for _, e := range vEvLog {
+		if e == kind {
+			n++
+		}
+	}
+	return n
+}
+
+func vEventInt(kind string, i int) int {
+	vMu.Lock()
+	defer vMu.Unlock()
+	switch kind {
+	case "now":
+		return int(vNowLog[i].Sub(time.Time{}))
+	case "sleep":
+		return int(vSleepLog[i])
+	}
+	return 0
+}
+
+// vEventPos is the position of the i-th event of that kind in the global log.
+func vEventPos(kind string, i int) int {
+	vMu.Lock()
+	defer vMu.Unlock()
+	for p, e := range vEvLog {
+		if e == kind {
+			if i == 0 {
+				return p
+			}
+			i--
+		}
+	}
+	return -1
 }
